@@ -5,11 +5,23 @@ import numpy as np
 
 from mc import alphabets as A
 from mc.harness import Result, Sub
+from mc.ref import c02x as X
 
 ASSUMPTIONS = [
     "displacements are generated on the dyadic fractional grid {+-1/8,...,+-15/8}^d (never a half-cell tie) plus the "
     "exact ties {+-1/2,+-3/2}; lattice shifts {-2..2}^d; nothing is claimed about other real values",
     "float comparison tolerance 1e-9 (relative to cell size)",
+    "C02.scale / C02.forms / C02.extreme / C02.sequence use the odd/16 fractional grid (exact reference, no tie) with one fixed "
+    "value pattern per batch size: these slices enumerate sizes, argument forms, shift magnitudes and call words, not values",
+    "argument forms beyond the docstring's np.array are those numpy treats alike on the unchanged tree: RIJ as list of lists, "
+    "Fortran-ordered, strided / negative-stride views, read-only, float32 (result then compared at float32 accuracy 1e-6 only), "
+    "int64; hmatrix Fortran-ordered / strided view / read-only / int64; ppp as list, tuple, int64 / int32 / bool / float array, "
+    "read-only array, or omitted (3D, all periodic).  hmatrix as a python list is NOT exercised",
+    "huge lattice shifts (up to 3e9 cells) are demanded only on well-conditioned cells (cond < 10) with a tolerance of "
+    "1e-9 + 64 eps |n| cond(H) in fractional units; cells with aspect ratios up to 2^20 and tilts up to 250 cell lengths only "
+    "with shifts {-2..2}^d (beyond that the double-precision product r H^-1 itself loses the integer part: not a defect)",
+    "call sequences: the result of a call must not depend on earlier calls, also when the caller re-uses ONE hmatrix / RIJ "
+    "buffer object and overwrites it in place between the calls",
 ]
 
 GRID = [k / 8.0 for k in range(-15, 16, 2)]  # 16 values, never k/2
@@ -129,7 +141,391 @@ def run(case):
     return R
 
 
+# ------------------------------------------------------------------------------------------ shared oracle of the new slices
+def compare_frac(R, sig, out, r, s_ref, H, m, tol_rows, what=""):
+    """out must equal (s - rint(s) m) H; compared row by row in fractional coordinates (treats all axes alike whatever
+    the aspect ratio).  s_ref: exact fractional coordinates of the input rows, tol_rows: tolerance per row."""
+    out = np.asarray(out)
+    if out.shape != np.shape(r):
+        R.fail(f"{what}shape {out.shape} != {np.shape(r)}", sig=dict(sig, clause="shape"))
+        return False
+    if out.dtype.kind not in "fiu" or not np.isfinite(out.astype(float)).all():
+        R.fail(f"{what}non-finite / non-real result (dtype {out.dtype})", sig=dict(sig, clause="finite"))
+        return False
+    fo = X.frac(out, H)
+    exp = s_ref - np.rint(s_ref) * m
+    err = np.abs(fo - exp).max(axis=1)
+    bad = np.nonzero(err > tol_rows)[0]
+    if len(bad):
+        i = int(bad[0])
+        dn = fo[i] - exp[i]
+        if np.abs(dn[m == 0]).max(initial=0) > tol_rows[i]:
+            cl = "nonperiodic"
+        elif np.abs(dn - np.rint(dn)).max() <= tol_rows[i]:
+            cl = "halfcell"
+        else:
+            cl = "lattice"
+        R.fail(f"{what}row {i} of {len(err)} ({len(bad)} rows wrong; first wrong row {i}, last {int(bad[-1])}): fractional result "
+               f"{fo[i].tolist()} but minimum image is {exp[i].tolist()}", sig=dict(sig, clause=cl),
+               exp=(exp[i] @ H), obs={"r": np.asarray(r, float)[i], "out": out[i]})
+        return False
+    return True
+
+
+# ------------------------------------------------------------------------------------------ C02.scale
+SIZES_Q = [1, 2, 63, 64, 65, 127, 128, 129, 255, 256, 257, 4097]
+SIZES_T = SIZES_Q + [1023, 1024, 1025, 16385, 65537]
+
+
+def gen_scale(tier, seed):
+    for d in (2, 3):
+        for ci, H in enumerate(X.CELLS_SCALE[d]):
+            for m in A.masks(d):
+                for n in SIZES_Q if tier == "quick" else SIZES_T:
+                    yield {"d": d, "H": H, "ppp": m, "n": n, "salt": ci}
+
+
+def run_scale(case):
+    from PyMatterSim.utils.pbc import remove_pbc
+
+    R = Result()
+    d, n = case["d"], case["n"]
+    H = np.array(case["H"], float)
+    m = np.array(case["ppp"])
+    s = X.frac_rows(n, d, case["salt"])
+    r = s @ H
+    r0, H0 = r.copy(), H.copy()
+    sig = {"cell": kind(H), "d": d, "masked": bool((m == 0).any()), "slice": "scale",
+           "size": "<=64" if n <= 64 else ("65..128" if n <= 128 else ">128")}
+    out = remove_pbc(r, H, m)
+    R.elem = n
+    if not (np.array_equal(r, r0) and np.array_equal(H, H0) and np.array_equal(m, case["ppp"])):
+        R.fail("an input array was modified", sig=dict(sig, clause="input_modified"))
+    compare_frac(R, sig, out, r, s, H, m, np.full(n, 1e-9), what=f"n={n}: ")
+    R.outcome(np.round(np.asarray(out, float), 9))
+    R.nontrivial = bool(np.abs(np.asarray(out) - r)[-1].max() > 0) if m.any() else False
+    return R
+
+
+# ------------------------------------------------------------------------------------------ C02.forms
+RIJ_FORMS = ["array", "list", "fortran", "rows_slice", "cols_slice", "negstride", "readonly", "float32", "int64"]
+H_FORMS = ["array", "fortran", "view", "readonly", "int64"]
+PPP_FORMS = ["list", "tuple", "int64", "int32", "bool", "float", "readonly", "default"]
+NFORM = 65
+SENT = 99.5
+
+
+def gen_forms(tier, seed):
+    for d in (2, 3):
+        cells = X.CELLS_SCALE[d] + X.CELLS_GENERAL[d]
+        if tier == "quick":
+            cells = [X.CELLS_SCALE[d][1], X.CELLS_GENERAL[d][0], X.CELLS_GENERAL[d][1], X.CELLS_GENERAL[d][3]]
+        for ci, H in enumerate(cells):
+            for m in A.masks(d):
+                for rf in RIJ_FORMS:
+                    yield {"d": d, "H": H, "ppp": m, "rij_form": rf, "salt": ci}
+
+
+def _mk_rij(form, r):
+    """-> (object passed, container whose bytes must not change, its pristine copy)"""
+    n, d = r.shape
+    if form == "array":
+        a = r.copy()
+        return a, a, a.copy()
+    if form == "list":
+        a = r.tolist()
+        return a, np.array(a), np.array(a)
+    if form == "fortran":
+        a = np.asfortranarray(r)
+        return a, a, a.copy()
+    if form == "rows_slice":
+        big = np.full((2 * n, d), SENT)
+        big[::2] = r
+        return big[::2], big, big.copy()
+    if form == "cols_slice":
+        wide = np.full((n, d + 2), SENT)
+        wide[:, 1:1 + d] = r
+        return wide[:, 1:1 + d], wide, wide.copy()
+    if form == "negstride":
+        base = r[::-1].copy()
+        return base[::-1], base, base.copy()
+    if form == "readonly":
+        a = r.copy()
+        a.flags.writeable = False
+        return a, a, a.copy()
+    if form == "float32":
+        a = r.astype(np.float32)
+        return a, a, a.copy()
+    if form == "int64":
+        a = r.astype(np.int64)
+        return a, a, a.copy()
+    raise ValueError(form)
+
+
+def _mk_h(form, H):
+    d = len(H)
+    if form == "array":
+        a = H.copy()
+        return a, a, a.copy()
+    if form == "fortran":
+        a = np.asfortranarray(H)
+        return a, a, a.copy()
+    if form == "view":
+        big = np.full((d, 2 * d), SENT)
+        big[:, ::2] = H
+        return big[:, ::2], big, big.copy()
+    if form == "readonly":
+        a = H.copy()
+        a.flags.writeable = False
+        return a, a, a.copy()
+    if form == "int64":
+        a = H.astype(np.int64)
+        return a, a, a.copy()
+    raise ValueError(form)
+
+
+def _mk_ppp(form, m):
+    if form == "list":
+        return [int(v) for v in m]
+    if form == "tuple":
+        return tuple(int(v) for v in m)
+    if form in ("int64", "int32", "bool", "float"):
+        return np.array(m, dtype={"int64": np.int64, "int32": np.int32, "bool": bool, "float": float}[form])
+    if form == "readonly":
+        a = np.array(m)
+        a.flags.writeable = False
+        return a
+    raise ValueError(form)
+
+
+def run_forms(case):
+    from PyMatterSim.utils import pbc
+
+    R = Result()
+    d, rf = case["d"], case["rij_form"]
+    H = np.array(case["H"], float)
+    m = np.array(case["ppp"])
+    condH = float(np.linalg.cond(H))
+    if rf == "int64":
+        r = X.int_rows(NFORM, d, case["salt"]).astype(float)
+        s = X.frac(r, H)
+        # integer displacements are not on the dyadic fractional grid: rows within 1e-6 of a half-cell tie are not compared
+        per = s[:, m == 1]
+        keep = (np.abs(np.abs(per - np.rint(per)) - 0.5).min(axis=1, initial=1.0) > 1e-6)
+    else:
+        s = X.frac_rows(NFORM, d, case["salt"])
+        r = s @ H
+        keep = np.ones(NFORM, bool)
+    tol = np.full(NFORM, 1e-6 if rf == "float32" else 1e-9) * max(1.0, condH / 4)
+    outs = []
+    n_calls = 0
+    for hf in H_FORMS:
+        for pf in PPP_FORMS:
+            if pf == "default" and not (d == 3 and m.all()):
+                continue
+            sig = {"cell": kind(H), "d": d, "masked": bool((m == 0).any()), "slice": "forms", "rij": rf, "hmatrix": hf, "ppp": pf}
+            a_r, c_r, c_r0 = _mk_rij(rf, r)
+            a_h, c_h, c_h0 = _mk_h(hf, H)
+            default0 = np.array(pbc.remove_pbc.__defaults__[0]).copy()
+            if pf == "default":
+                out = pbc.remove_pbc(a_r, a_h)
+                a_p = p0 = None
+            else:
+                a_p = _mk_ppp(pf, m)
+                p0 = np.array(a_p).copy()
+                out = pbc.remove_pbc(a_r, a_h, a_p)
+            n_calls += 1
+            if not (np.array_equal(c_r, c_r0) and c_r.dtype == c_r0.dtype):
+                R.fail(f"RIJ ({rf}) or the memory around the view was modified", sig=dict(sig, clause="input_modified", arg="RIJ"))
+            if not np.array_equal(c_h, c_h0):
+                R.fail(f"hmatrix ({hf}) or the memory around the view was modified", sig=dict(sig, clause="input_modified", arg="hmatrix"))
+            if a_p is not None and not (np.shape(a_p) == p0.shape and np.array_equal(np.array(a_p), p0) and type(a_p) in (list, tuple, np.ndarray)):
+                R.fail(f"ppp ({pf}) was modified", sig=dict(sig, clause="input_modified", arg="ppp"))
+            dflt = pbc.remove_pbc.__defaults__[0]
+            if not (np.shape(dflt) == default0.shape == (3,) and np.array_equal(np.array(dflt), default0) and np.array_equal(default0, [1, 1, 1])):
+                R.fail(f"the default value of ppp is now {dflt!r}", sig=dict(sig, clause="default_mutated"))
+            o = np.asarray(out)
+            ok = o.shape == r.shape
+            if not ok:
+                R.fail(f"shape {o.shape} != {r.shape}", sig=dict(sig, clause="shape"))
+                continue
+            compare_frac(R, sig, o[keep], r[keep], s[keep], H, m, tol[keep])
+            outs.append(np.round(o.astype(float), 6))
+    R.elem = n_calls * NFORM
+    # all forms of one (cell, mask, RIJ form) must also agree with each other
+    R.outcome(outs[0] if outs else None)
+    R.nontrivial = bool(m.any()) and bool(keep.sum() >= NFORM // 2)
+    return R
+
+
+# ------------------------------------------------------------------------------------------ C02.extreme
+def gen_extreme(tier, seed):
+    for d in (2, 3):
+        for H in X.CELLS_SCALE[d] + X.CELLS_GENERAL[d]:
+            for m in A.masks(d):
+                if not any(m):
+                    continue
+                yield {"d": d, "H": H, "ppp": m, "what": "bigshift"}
+        for H in X.CELLS_ASPECT[d]:
+            for m in A.masks(d):
+                yield {"d": d, "H": H, "ppp": m, "what": "aspect"}
+
+
+def run_extreme(case):
+    from PyMatterSim.utils.pbc import remove_pbc
+
+    R = Result()
+    d = case["d"]
+    H = np.array(case["H"], float)
+    m = np.array(case["ppp"])
+    sig = {"cell": kind(H), "d": d, "masked": bool((m == 0).any()), "slice": case["what"]}
+    base = X.frac_rows(8, d, 1)
+    if case["what"] == "bigshift":
+        mags = X.BIG if d == 2 else X.BIG[::2] + [X.BIG[-1]]
+        N = np.array(list(itertools.product(mags, repeat=d)), float) * m
+    else:
+        N = np.array(list(itertools.product(range(-2, 3), repeat=d)), float) * m
+    s = (base[None, :, :] + N[:, None, :]).reshape(-1, d)  # exact: < 2^36 with 4 fractional bits
+    r = s @ H
+    r0 = r.copy()
+    out = remove_pbc(r, H, m)
+    R.elem = len(r)
+    if not np.array_equal(r, r0):
+        R.fail("input array modified", sig=dict(sig, clause="input_modified"))
+    eps = np.finfo(float).eps
+    if case["what"] == "bigshift":
+        tol = 1e-9 + 64 * eps * np.abs(s).max(axis=1) * float(np.linalg.cond(H))
+    else:
+        tol = np.full(len(r), 1e-9)
+    ok = compare_frac(R, sig, out, r, s, H, m, tol)
+    if ok and X.is_orthogonal(H) and case["what"] == "aspect":
+        # orthogonal cell: the shortest of all periodic images
+        o = np.asarray(out)
+        best = np.full(len(r), np.inf)
+        for sh in itertools.product(range(-1, 2), repeat=d):
+            best = np.minimum(best, np.linalg.norm(o + (np.array(sh) * m) @ H, axis=1))
+        if (np.linalg.norm(o, axis=1) > best * (1 + 1e-12) + 1e-300).any():
+            R.fail("not the shortest periodic image", sig=dict(sig, clause="shortest_orth"))
+    R.outcome(np.round(X.frac(out, H), 6))
+    R.nontrivial = bool(m.any())
+    return R
+
+
+# ------------------------------------------------------------------------------------------ C02.sequence (E2)
+# letters: (d, cell, mask or None (= default argument), rows, single vector?)
+SEQ_LETTERS = [
+    {"d": 2, "H": [[4.0, 0.0], [0.0, 8.0]], "ppp": [1, 1], "n": 5},
+    {"d": 2, "H": [[4.0, 0.0], [1.0, 8.0]], "ppp": [1, 1], "n": 5},  # same diagonal, tilt
+    {"d": 2, "H": [[4.0, 0.0], [-2.0, 8.0]], "ppp": [1, 0], "n": 7},
+    {"d": 2, "H": [[0.0, 4.0], [-8.0, 0.0]], "ppp": [1, 1], "n": 5},  # quarter turn: zero diagonal, same shape
+    {"d": 3, "H": [[4.0, 0.0, 0.0], [0.0, 8.0, 0.0], [0.0, 0.0, 6.0]], "ppp": None, "n": 5},
+    {"d": 3, "H": [[4.0, 0.0, 0.0], [1.0, 8.0, 0.0], [-1.0, 1.0, 6.0]], "ppp": [1, 1, 1], "n": 5},  # same diagonal / det / trace
+    {"d": 3, "H": [[4.0, 1.0, 0.5], [-1.0, 5.0, 1.0], [0.5, -1.0, 6.0]], "ppp": [1, 0, 1], "n": 7},
+    {"d": 3, "H": [[4.0, 0.0, 0.0], [0.0, 8.0, 0.0], [0.0, 0.0, 6.0]], "ppp": None, "n": 1, "single": True},
+]
+
+
+def gen_sequence(tier, seed):
+    depth = 2 if tier == "quick" else 3
+    nl = len(SEQ_LETTERS)
+    for buf in (False, True):
+        for L in range(1, depth + 1):
+            for word in itertools.product(range(nl), repeat=L):
+                yield {"word": list(word), "buffers": buf}
+
+
+def _seq_child(case):
+    """forked child: the calls of the word in order.  With buffers=True every call passes the SAME hmatrix / RIJ / ppp array
+    objects per dimension (overwritten in place with the letter's values), so object identity carries no information."""
+    from PyMatterSim.utils import pbc
+
+    bufH = {2: np.zeros((2, 2)), 3: np.zeros((3, 3))}
+    bufR = {2: np.zeros((7, 2)), 3: np.zeros((7, 3))}
+    bufP = {2: np.zeros(2, dtype=int), 3: np.zeros(3, dtype=int)}
+    outs = []
+    for pos, k in enumerate(case["word"]):
+        lt = SEQ_LETTERS[k]
+        d = lt["d"]
+        H = np.array(lt["H"])
+        r = X.frac_rows(lt["n"], d, k) @ H
+        if case["buffers"]:
+            np.copyto(bufH[d], H)
+            H = bufH[d]
+            bufR[d][: lt["n"]] = r
+            r = bufR[d][: lt["n"]]
+            if lt["ppp"] is not None:
+                np.copyto(bufP[d], lt["ppp"])
+        if lt.get("single"):
+            r = r[0]
+        if lt["ppp"] is None:
+            o = pbc.remove_pbc(r, H)
+        else:
+            o = pbc.remove_pbc(r, H, bufP[d] if case["buffers"] else list(lt["ppp"]))
+        outs.append(np.asarray(o, float).reshape(-1, d).tolist())
+    return {"outs": outs, "default": np.asarray(pbc.remove_pbc.__defaults__[0]).tolist()}
+
+
+def run_sequence(case):
+    R = Result()
+    payload = X.forked(_seq_child, case)
+    feat = {"slice": "sequence", "buffers": case["buffers"]}
+    if "err" in payload:
+        R.fail(f"call sequence {case['word']} raised {payload['err']}", sig=dict(feat, clause="exception"))
+        return R
+    res = payload["ok"]
+    states = set()
+    for pos, (k, got) in enumerate(zip(case["word"], res["outs"])):
+        lt = SEQ_LETTERS[k]
+        d = lt["d"]
+        H = np.array(lt["H"])
+        m = np.array(lt["ppp"] if lt["ppp"] is not None else [1, 1, 1])
+        s = X.frac_rows(lt["n"], d, k)
+        if lt.get("single"):
+            s = s[:1]
+        sig = dict(feat, position="first" if pos == 0 else "later", d=d)
+        if pos > 0:
+            prev = SEQ_LETTERS[case["word"][pos - 1]]
+            sig["prev_same_d"] = prev["d"] == d
+        states.add((k, str(got)))
+        if not compare_frac(R, sig, np.array(got), s @ H, s, H, m, np.full(len(s), 1e-9),
+                            what=f"call #{pos + 1} of the word {case['word']} (letters = cells/masks of SEQ_LETTERS): "):
+            break
+    if res["default"] != [1, 1, 1]:
+        R.fail(f"default ppp is {res['default']} after the calls", sig=dict(feat, clause="default_mutated"))
+    R.elem = sum(SEQ_LETTERS[k]["n"] for k in case["word"])
+    R.states = len(states)
+    R.transitions = len(case["word"])
+    R.outcome(res["outs"])
+    return R
+
+
 def subs(tier, seed):
+    extra = [
+        Sub("C02.scale", gen_scale, run_scale,
+            rule="SIZES: one call with n rows for n around the usual block sizes (63/64/65, 127..129, 255..257, 4097; thorough also "
+                 "1023..1025, 16385, 65537) x 3 cells per dimension (orthogonal, triangular, general) x all masks; one fixed dyadic value "
+                 "pattern per size (two rows of three and the last two rows are moved on every axis); every row compared with the exact "
+                 "minimum image; non-trivial = the last row is moved",
+            bounds={"sizes": SIZES_Q if tier == "quick" else SIZES_T, "cells_per_d": 3}),
+        Sub("C02.forms", gen_forms, run_forms,
+            rule="ARGUMENT FORMS: full product RIJ form (" + ", ".join(RIJ_FORMS) + ") x hmatrix form (" + ", ".join(H_FORMS) + ") x ppp form ("
+                 + ", ".join(PPP_FORMS) + "; default = argument omitted, 3D all-periodic only) x cells (triangular + rotated / non-triangular / "
+                 "zero-diagonal / upper-triangular) x masks, 65 rows each; every row compared with the exact minimum image, every argument "
+                 "(and the memory around strided views, and the default ppp) must be unchanged; one case = (cell, mask, RIJ form)",
+            bounds={"rows": NFORM, "rij_forms": RIJ_FORMS, "h_forms": H_FORMS, "ppp_forms": PPP_FORMS}),
+        Sub("C02.extreme", gen_extreme, run_extreme,
+            rule="MAGNITUDES: (a) lattice shifts with |n| in {1, 3, 1e3, 32767, 32768, 4e4, 7e4, 1e6, 2^31, 2^31+5, 3e9} per axis (full product "
+                 "in 2D, every second value in 3D) on 7 well-conditioned cells per dimension x masks, tolerance scaled with |n|; (b) cells "
+                 "with aspect ratios up to 2^20, edge lengths 2^-20..2^21 and tilts up to 250 cell lengths x masks x shifts {-2..2}^d; "
+                 "8 base points each; compared in fractional coordinates",
+            bounds={"shift_magnitudes": X.BIG, "aspect_cells": {d: len(X.CELLS_ASPECT[d]) for d in (2, 3)}}),
+        Sub("C02.sequence", gen_sequence, run_sequence,
+            rule="explicit-state search over CALL SEQUENCES: all words of length <= " + ("2" if tier == "quick" else "3") + " over 8 calls (2D / 3D, "
+                 "cells sharing shape, diagonal, determinant and trace but not tilt, a zero-diagonal cell, different masks, default ppp, "
+                 "(n,d) and (d,) inputs), each word twice: fresh argument objects per call / ONE hmatrix, RIJ and ppp buffer per dimension "
+                 "overwritten in place; every word runs in a forked child; every call must return the minimum image for ITS OWN arguments",
+            bounds={"depth": 2 if tier == "quick" else 3, "letters": len(SEQ_LETTERS)}),
+    ]
     return [
         Sub(
             "C02.contract",
@@ -140,4 +536,4 @@ def subs(tier, seed):
             bounds={"grid_per_axis": len(GRID), "ties": TIES, "shifts": "{-2..2}^d", "cells2d": len(A.cells2d()),
                     "cells3d": len(A.cells3d(full=(tier == "thorough")))},
         )
-    ]
+    ] + extra
